@@ -52,5 +52,19 @@ CHECKS['C10'] = dict(
          'BSP and an enriched copy - not counted as proved.',
     note='trusted: AST effect analysis follows self.<helper>() calls one level; zipfile/lzma; only one BSP layout '
          '(the sample file) is exercised by the bounded tier; BSP.read/save header arithmetic is bounded-only.')
+CHECKS['C02'] = dict(
+    category='proof',
+    technique='contract-based deductive verification: pyvc step lemma over the real _handle_string loop body (z3 '
+              'strings), table obligations evaluated from the AST, contract on escape_text; induction over the string '
+              'as fixed meta-argument; exhaustive differential stand-in',
+    text='For every character c and both modes one iteration of the real Tokenizer._handle_string loop, started on '
+         'input beginning with the escaped form e(c) (tables and regexes read from the AST), appends exactly c, consumes '
+         'exactly |e(c)| characters, leaves the CR flag clear and counts raw line feeds; a following quote returns '
+         '(STRING, joined value) with the cursor just behind it, for arbitrary surrounding text and tokenizer state; '
+         'escape_text is proved to be the substitution by _escape_matcher over the mode\'s own pattern, _escape_matcher '
+         'the table lookup, and every e(c) a one- or two-character unit that can contain neither a raw quote nor (single '
+         'line) a raw line break. The statement for all strings is the induction over |s| on these lemmas.',
+    note='trusted: pyvc/z3 string encoding, the re.sub summary for single-character alternations (character sets '
+         'established by matching every code point), the _next_char contract (discharged in C03); Cython twin unverified.')
 _PENDING = 'not yet built in this session (planned, see DESIGN.md section 3); no check is registered so nothing is claimed'
 NOT_APPLICABLE = {f'C{i:02d}': _PENDING for i in range(1, 21) if f'C{i:02d}' not in CHECKS}
